@@ -177,8 +177,46 @@ def parse_ps(o):
 SRCS_QUICK = ['s', 'b', 'r1', 'rx5']
 SRCS_ALL = ['s', 'b', 'r1', 'r2', 'r3', 'r7', 'r64', 'rx3', 'rx11']
 
-def judge_ps(ctx, cfg, inputs, aux=None, srcs=None, modes=('s', 'r'), with_is=True):
-    """inputs: bytes after the opening quote.  Every (mode, source) on implementation and model, plus the reference."""
+def run_balanced(binary, lines, tag, stack):
+    """engine.run_lines shards by line count only (one shard below 1000 lines); a few hundred 64 KiB literals would run serially.
+    Heavy batches are split here into up to 16 groups of equal total length, each run under its own tag, concurrently."""
+    n = len(lines)
+    if n < 2 or sum(len(l) for l in lines) < 1500000:
+        return engine.run_lines(binary, lines, tag, stack_unlimited=stack)
+    k = min(engine.NCPU, n)
+    groups, loads = [[] for _ in range(k)], [0] * k
+    for i in sorted(range(n), key=lambda i: -len(lines[i])):
+        j = loads.index(min(loads))
+        groups[j].append(i)
+        loads[j] += len(lines[i]) + 50
+    out = [None] * n
+    def one(j):
+        g = sorted(groups[j])
+        return g, engine.run_lines(binary, [lines[i] for i in g], '%s-g%d' % (tag, j), stack_unlimited=stack)
+    from concurrent.futures import ThreadPoolExecutor
+    with ThreadPoolExecutor(max_workers=k) as ex:
+        for g, res in ex.map(one, [j for j in range(k) if groups[j]]):
+            for i, r in zip(g, res):
+                out[i] = r
+    return out
+
+def both_or_impl(ctx, cfg, lines, with_model):
+    from concurrent.futures import ThreadPoolExecutor
+    import os
+    if not ctx.quiet:
+        ctx.evaluations += len(lines)
+    with ThreadPoolExecutor(max_workers=2) as ex:
+        fi = ex.submit(run_balanced, engine.harness_bin(cfg, 'sjh'), lines, ctx.pid + '-' + cfg, False)
+        if with_model and ctx.model_ok:
+            fm = ex.submit(run_balanced, os.path.join(engine.VERIF, 'ocaml', 'sjdriver'), lines, ctx.pid + '-m', True)
+            return fi.result(), fm.result()
+        return fi.result(), [('NOMODEL' if with_model else None)] * len(lines)
+
+def judge_ps(ctx, cfg, inputs, aux=None, srcs=None, modes=('s', 'r'), with_is=True, model_srcs=None):
+    """inputs: bytes after the opening quote.  Every (mode, source) on implementation and model, plus the reference.
+    model_srcs: sources for which the model is run as well (default: all).  The slice loop of the extracted model keeps its
+    cursor as a unary nat and is quadratic in (length x number of escapes); escape-dense 64 KiB literals go through the model
+    on the reader source only and through implementation + reference on all sources."""
     aux = aux or {}
     srcs = [aux['src']] if 'src' in aux else (srcs or (SRCS_QUICK if ctx.tier == 'quick' else SRCS_ALL))
     modes = [aux['mode']] if 'mode' in aux else modes
@@ -193,7 +231,7 @@ def judge_ps(ctx, cfg, inputs, aux=None, srcs=None, modes=('s', 'r'), with_is=Tr
             if not idxs:
                 continue
             lines = ['ps %s %s %s' % (mode, src, hx(inputs[i])) for i in idxs]
-            io, mo = ctx.both(cfg, lines)
+            io, mo = both_or_impl(ctx, cfg, lines, model_srcs is None or src in model_srcs)
             if base is None and src != 's':
                 base = dict(zip(idxs, io))
             for i, a, m in zip(idxs, io, mo):
@@ -229,7 +267,7 @@ def judge_ps(ctx, cfg, inputs, aux=None, srcs=None, modes=('s', 'r'), with_is=Tr
                 elif pa is not None:
                     viol('accepts-bad-literal', 'reference: rejected (%s)' % r[1])
                 # --- the proved model
-                if a != m:
+                if m is not None and a != m:
                     pm = parse_ps(m)
                     if (pa is None) != (pm is None) or (pa and pm and (pa[0], pa[1]) != (pm[0], pm[1])):
                         viol('model-mismatch', 'proved model: ' + m)
@@ -249,7 +287,7 @@ def judge_ps(ctx, cfg, inputs, aux=None, srcs=None, modes=('s', 'r'), with_is=Tr
             if not idxs:
                 continue
             lines = ['is %s %s' % (src, hx(inputs[i])) for i in idxs]
-            io, mo = ctx.both(cfg, lines)
+            io, mo = both_or_impl(ctx, cfg, lines, model_srcs is None or src in model_srcs)
             for i, a, m in zip(idxs, io, mo):
                 d = inputs[i]
                 r = ref_ignore(d)
@@ -259,7 +297,7 @@ def judge_ps(ctx, cfg, inputs, aux=None, srcs=None, modes=('s', 'r'), with_is=Tr
                 elif a.startswith('ok') != (r is not None) or (r is not None and a != 'ok %d' % r):
                     v.append({'what': 'ignore-str-verdict', 'cfg': cfg, 'input': hx(d), 'op': 'is ' + src,
                               'expected': 'reference: %s' % ('rejected' if r is None else 'ok %d' % r), 'actual': a, 'aux': A})
-                elif a != m:
+                elif m is not None and a != m:
                     ctx.disagreements.append({'input': hx(d), 'impl': a, 'model': m, 'cfg': cfg, 'op': 'is ' + src})
     return v
 
@@ -302,17 +340,22 @@ def judge_es(ctx, cfg, inputs, aux=None, parse_back=True):
                       'expected': '%s (from_str/from_slice/from_reader/Value give back the input; &str target works iff nothing was escaped)' % want, 'actual': a[:400]})
     # ... and through the model: the written literal parses back to the input (theorem C05_roundtrip), on model and implementation
     if parse_back:
-        idx = [i for i, l in enumerate(lits) if l is not None]
+        # (the extracted slice loop is quadratic in length x escapes: heavy literals go through the model on the reader source only)
+        allidx = [i for i, l in enumerate(lits) if l is not None]
+        heavy = set(i for i in allidx if len(lits[i]) * (1 + lits[i].count(b'\\')) > 20000000)
         for src in ('s', 'b', 'r1'):
-            pl = ['ps s %s %s' % (src, hx(lits[i][1:])) for i in idx]
-            io2, mo2 = ctx.both(cfg, pl)
-            for i, a, m in zip(idx, io2, mo2):
-                s, lit = inputs[i], lits[i]
-                flag = 'c' if (b'\\' in lit or src == 'r1') else 'b'
-                want = 'ok %s %s %d' % (flag, hx(s), len(lit) - 1)
-                if a != want or m != want:
-                    v.append({'what': 'round-trip-parse', 'cfg': cfg, 'input': hx(s), 'op': 'es; ps s ' + src, 'aux': {'kind': 'es'},
-                              'expected': want, 'actual': 'implementation: %s ; model: %s' % (a[:300], m[:300])})
+            for idx, with_model in (([i for i in allidx if i not in heavy], True), ([i for i in allidx if i in heavy], src == 'r1')):
+                if not idx:
+                    continue
+                pl = ['ps s %s %s' % (src, hx(lits[i][1:])) for i in idx]
+                io2, mo2 = both_or_impl(ctx, cfg, pl, with_model)
+                for i, a, m in zip(idx, io2, mo2):
+                    s, lit = inputs[i], lits[i]
+                    flag = 'c' if (b'\\' in lit or src == 'r1') else 'b'
+                    want = 'ok %s %s %d' % (flag, hx(s), len(lit) - 1)
+                    if a != want or (m is not None and m != want):
+                        v.append({'what': 'round-trip-parse', 'cfg': cfg, 'input': hx(s), 'op': 'es; ps s ' + src, 'aux': {'kind': 'es'},
+                                  'expected': want, 'actual': 'implementation: %s ; model: %s' % (a[:300], (m or '-')[:300])})
     return v
 
 def judge_c05(ctx, cfg, inputs, aux=None):
@@ -489,20 +532,23 @@ PIECES_VALID = [b'a', b'abcdefgh', b' ', b'/', b'\\"', b'\\\\', b'\\/', b'\\b', 
                 b'\xed\x9f\xbf', b'\xee\x80\x80', b'\xef\xbf\xbf', b'\xf4\x8f\xbf\xbf']
 PIECES_BAD = [b'\x00', b'\x1f', b'\n', b'\\x', b'\\u12g4', b'\\ud800', b'\\udc00', b'\\ud800\\u0041', b'\x80', b'\xc3', b'\xed\xa0\x80', b'\xff',
               b'\\', b'\\u', b'\\ud83d\\', b'\\ud83d\\n']
-def gen_long(ctx):
+def gen_long(ctx, dense):
     """random long mixed strings up to 64 KiB: long unescaped runs (chunk scanner), every escape form, multi-byte text, and — in a
-    minority of cases — one or more offending pieces, a missing closing quote, a trailer after the quote"""
+    minority of cases — one or more offending pieces, a missing closing quote, a trailer after the quote.
+    dense: escapes everywhere; otherwise at most ~150 escape pieces per literal (long runs in between)"""
     rng = ctx.rng
-    n = 400 if ctx.tier == 'quick' else 4000
+    n = (150 if ctx.tier == 'quick' else 1500) if dense else (300 if ctx.tier == 'quick' else 3000)
     for k in range(n):
         target = rng.choice([10, 50, 200, 1000, 5000, 20000, 65536]) if k % 10 else 65536
         out = bytearray()
         bad = rng.random() < 0.35
+        pe = 0.65 if dense or target <= 1000 else 0.65 * min(1.0, 150.0 * 40 / target)
+        runs = [1, 3, 7, 8, 9, 15, 16, 17, 64, 300]
         while len(out) < target:
             r = rng.random()
-            if r < 0.35:
-                out += bytes(rng.randrange(0x20, 0x7f) for _ in range(rng.choice([1, 3, 7, 8, 9, 15, 16, 17, 64, 300]))).replace(b'"', b'a').replace(b'\\', b'b')
-            elif bad and r < 0.36:
+            if r >= pe:
+                out += bytes(rng.randrange(0x20, 0x7f) for _ in range(rng.choice(runs))).replace(b'"', b'a').replace(b'\\', b'b')
+            elif bad and r < 0.02 * pe:
                 out += rng.choice(PIECES_BAD)
             else:
                 out += rng.choice(PIECES_VALID)
@@ -556,14 +602,15 @@ def run_c05(ctx):
         # ---- parser
         parts = [('after-backslash', gen_after_backslash(), None), ('u4-all', gen_u4_all(), ['b', 's', 'r1'] if ctx.tier == 'quick' else None),
                  ('surrogate-pairs', gen_pairs(ctx), None), ('u-groups', gen_u_groups(ctx), ['b', 'r1'] if ctx.tier == 'quick' else ['s', 'b', 'r1', 'rx3']),
-                 ('offsets', gen_offsets(), SRCS_ALL), ('invalid-utf8', gen_invalid_utf8(), None), ('long-mixed', gen_long(ctx), None)]
+                 ('offsets', gen_offsets(), SRCS_ALL), ('invalid-utf8', gen_invalid_utf8(), None), ('long-mixed', gen_long(ctx, False), None),
+                 ('long-dense', gen_long(ctx, True), None)]
         for name, g, srcs in parts:
             seen = set()
             n = 0
             for batch in chunks(g, 150000):
                 batch = [d for d in batch if d not in seen and not seen.add(d)]
                 n += len(batch)
-                ctx.violations += judge_ps(ctx, cfg, batch, srcs=srcs)
+                ctx.violations += judge_ps(ctx, cfg, batch, srcs=srcs, model_srcs=['r1'] if name == 'long-dense' else None)
                 for d in batch[:2]:
                     ctx.sample({'op': 'ps/is', 'part': name, 'cfg': cfg, 'literal_tail_hex': hx(d)[:120]})
             ctx.count('literals:' + name, n)
